@@ -142,7 +142,7 @@ def gen_values(cfg, seed):
     blk = block_of(sizes)
     off_ = offsets(sizes)
     out = {}
-    real_only = cfg["repr"] in ("float", "int")
+    real_only = cfg["repr"] in ("float", "int", "csr-int")
     for order in cfg["support"]:
         order = tuple(order)
         rng = np.random.default_rng([int(seed), int(cfg.get("vset", 0)), 977, *order])
@@ -223,6 +223,9 @@ def library_input(cfg, values):
     elif rep == "int":  # integer-typed arrays (values are small integers)
         conv = lambda m: np.array(np.rint(m.real), dtype=np.int64)  # noqa: E731
         h0 = np.diag(np.array([int(e[0]) for e in E], dtype=np.int64))
+    elif rep == "csr-int":  # sparse arrays with an integer dtype
+        conv = lambda m: sparse.csr_array(np.array(np.rint(m.real), dtype=np.int64))  # noqa: E731
+        h0 = sparse.csr_array(np.diag(np.array([int(e[0]) for e in E], dtype=np.int64)))
     elif rep == "fortran-ro":  # Fortran-ordered, read-only buffers
 
         def conv(m):
